@@ -465,6 +465,18 @@ fn d3_totality() {
 	run(&w);
 }
 
+/// D2b: nesting 2 with three events (e.g. seq > seq > failing element): the smallest shape in which a
+/// *collection* child reports a deserializer failure to its parent - the case the nesting-1 harness
+/// cannot produce and the depth induction argument needs.
+#[kani::proof]
+#[kani::unwind(8)]
+fn d2b_attribution_nest2_small() {
+	let w = World::new(3, 2, false, true, true);
+	run(&w);
+	kani::cover!(w.max_depth_seen.get() == 2 && w.de_failed.get(), "D2b deserializer fault two levels down");
+	kani::cover!(w.max_depth_seen.get() == 2 && w.ser_failed.get(), "D2b serializer fault two levels down");
+}
+
 /// D4: nesting 2 (best effort)
 #[kani::proof]
 #[kani::unwind(8)]
